@@ -93,6 +93,12 @@ REQ_F = L.SearchRequest(2, [], "", L.SearchScope.BASE, L.DereferencingPolicy.NEV
 REQ_A = L.BindRequest(3, [], 3, "", ACred("u", "p")).pack(OPT)
 RESP_X = L.SearchResultDone(1, [XControl(False, 9)], RES).pack(OPT)
 RESP_CODE = L.ExtendedResponse(1, [], L.LDAPResult(L.LDAPResultCode(4242), "", "", None), None, None).pack(OPT)
+# the library-known show-deleted control: once as the library writes it, once as a peer may send it (with a value)
+SD = "1.2.840.113556.1.4.417"
+REQ_SD = L.SearchRequest(1, [L.ShowDeletedControl(True)], "", L.SearchScope.BASE, L.DereferencingPolicy.NEVER, 0, 0, False, L.FilterPresent("a"), []).pack(OPT)
+REQ_SDV = L.SearchRequest(2, [L.LDAPControl(SD, False, b"zz")], "", L.SearchScope.BASE, L.DereferencingPolicy.NEVER, 0, 0, False, L.FilterPresent("a"), []).pack(OPT)
+RESP_SD = L.SearchResultEntry(1, [L.ShowDeletedControl(False)], "cn=e", []).pack(OPT)
+RESP_SDV = L.SearchResultEntry(1, [L.LDAPControl(SD, True, b"yy")], "cn=f", []).pack(OPT)
 PDU_REQ = make_msg("ExtReq", 1).pack(OPT)
 PDU_RESP = make_msg("ExtResp", 1).pack(OPT)
 
@@ -106,6 +112,8 @@ OPS: t.Dict[str, t.Dict[str, t.Callable[[t.Any], t.Any]]] = {
         "recv_rest": lambda c: c.receive(PDU_RESP[5:]),
         "recv_done_X": lambda c: c.receive(RESP_X),
         "recv_code": lambda c: c.receive(RESP_CODE),
+        "recv_SD": lambda c: c.receive(RESP_SD),
+        "recv_SDv": lambda c: c.receive(RESP_SDV),
         "drain1": lambda c: c.data_to_send(1),
         "drain": lambda c: c.data_to_send(),
         "reg_X": lambda c: c.register_control(XControl),
@@ -125,6 +133,8 @@ OPS: t.Dict[str, t.Dict[str, t.Callable[[t.Any], t.Any]]] = {
         "recv_X": lambda s: s.receive(REQ_X),
         "recv_F": lambda s: s.receive(REQ_F),
         "recv_A": lambda s: s.receive(REQ_A),
+        "recv_SD": lambda s: s.receive(REQ_SD),
+        "recv_SDv": lambda s: s.receive(REQ_SDV),
         "resp_bind": lambda s: s.bind_response(1),
         "resp_entry": lambda s: s.search_result_entry(1, "cn=e", [L.PartialAttribute("a", [b"v"])]),
         "resp_done_X": lambda s: s.search_result_done(1, controls=[XControl(False, 9)]),
@@ -141,15 +151,21 @@ OPS: t.Dict[str, t.Dict[str, t.Callable[[t.Any], t.Any]]] = {
 
 def _obs(v: t.Any) -> t.Any:
     if isinstance(v, list):
-        return [A.src(m) for m in v]
+        return [(A.src(m), [_obs(getattr(c, "value", None)) for c in getattr(m, "controls", [])]) for m in v]
     if isinstance(v, (bytes, bytearray)):
         return bytes(v).hex()
     return repr(v)
 
 
+KEPT: t.Dict[int, t.List[t.Any]] = {}  # id(session) -> messages it has returned so far (the application keeps them)
+
+
 def do_op(role: str, s: t.Any, op: str) -> t.Any:
     try:
-        r = ("ok", _obs(OPS[role][op](s)))
+        v = OPS[role][op](s)
+        if isinstance(v, list):
+            KEPT.setdefault(id(s), []).extend(v)
+        r = ("ok", _obs(v))
     except BaseException as e:  # noqa: BLE001
         r = ("exc", type(e).__name__, str(e)[:120], _obs(getattr(e, "response", None)))
     return (op, r, s.state.name)
@@ -157,7 +173,9 @@ def do_op(role: str, s: t.Any, op: str) -> t.Any:
 
 def final_obs(s: t.Any) -> t.Any:
     """What is still pending at the end of a history (a real, full drain) and the state after it."""
-    return ("final", s.data_to_send().hex(), s.state.name)
+    kept = KEPT.pop(id(s), [])
+    # messages returned earlier are looked at again: another session must not have changed them
+    return ("final", s.data_to_send().hex(), s.state.name, _obs(kept))
 
 
 def new(role: str) -> t.Any:
@@ -273,6 +291,37 @@ def config_check(sub_a: t.Tuple[str, ...], sub_b: t.Tuple[str, ...]) -> t.List[t
                         out.append((f"registered-type-not-decoded:{ty}", f"server with {regs}: {err or [A.src(m) for m in msgs]}"))
                 elif not err:
                     out.append((f"unregistered-type-decoded:{ty}:{label}", f"server with {regs} (peer had {sub_a}) decoded custom {ty}: {[A.src(m) for m in msgs]}"))
+    # a registration made after the session has already decoded traffic takes effect from then on
+    for ty in sub_b:
+        b = L.LDAPServer()
+        b.receive(make_msg("SearchReq", 7).pack(OPT))
+        b.receive(REQ_SD)
+        _register(b, (ty,))
+        wire = {"X": REQ_X, "F": REQ_F, "A": REQ_A}[ty]
+        if ty == "A":
+            b.search_result_done(7)
+            b.search_result_done(1)
+            b.data_to_send()
+        try:
+            msgs = b.receive(wire)
+        except BaseException as e:  # noqa: BLE001
+            out.append((f"late-registration-ignored:{ty}", f"server registered {ty} after earlier traffic, then receiving it raised {type(e).__name__}: {e}"))
+            continue
+        m = msgs[0]
+        ok = (ty == "X" and type(m.controls[0]) is XControl) or (ty == "F" and m.filter == L.FilterNot(FFilter("v"))) or (ty == "A" and m.authentication == ACred("u", "p"))
+        if not ok:
+            out.append((f"late-registration-ignored:{ty}", f"server registered {ty} after earlier traffic but decoded {A.src(m)[:160]}"))
+        c = L.LDAPClient()
+        c.search_request()
+        c.receive(RESP_SD)
+        if ty == "X":
+            c.register_control(XControl)
+            try:
+                got = c.receive(RESP_X)
+                if type(got[0].controls[0]) is not XControl:
+                    out.append(("late-registration-ignored:X:client", f"client decoded {A.src(got[0].controls[0])}"))
+            except BaseException as e:  # noqa: BLE001
+                out.append(("late-registration-ignored:X:client", f"{type(e).__name__}: {e}"))
     # duplicate / colliding registrations are refused and change nothing
     s = L.LDAPServer()
     _register(s, sub_b)
@@ -315,8 +364,8 @@ def histories(role: str, maxlen: int, ops: t.Optional[t.List[str]] = None) -> t.
 
 
 FOCUS = {
-    "client": [["reg_X", "recv_done_X", "search", "send_X", "drain1"], ["reg_F", "send_F", "reg_A", "send_A", "bind"], ["recv_half", "recv_rest", "ext", "recv_resp1", "recv_code", "unbind"]],
-    "server": [["reg_X", "recv_X", "recv_search", "resp_done_X", "drain1"], ["reg_F", "recv_F", "reg_A", "recv_A", "recv_bind", "resp_bind"], ["recv_half", "recv_rest", "recv_ext", "resp_ext", "notice", "unbind"]],
+    "client": [["reg_X", "recv_done_X", "search", "send_X", "recv_SD", "recv_SDv"], ["reg_F", "send_F", "reg_A", "send_A", "bind"], ["recv_half", "recv_rest", "ext", "recv_resp1", "recv_code", "unbind"]],
+    "server": [["reg_X", "recv_X", "recv_search", "resp_done_X", "recv_SD", "recv_SDv"], ["reg_F", "recv_F", "reg_A", "recv_A", "recv_bind", "resp_bind"], ["recv_half", "recv_rest", "recv_ext", "resp_ext", "notice", "unbind"]],
 }
 
 
